@@ -27,6 +27,8 @@ import Aegean.Proofs.C04Bridge
 
 set_option linter.unusedVariables false
 set_option linter.unusedSimpArgs false
+set_option linter.unusedTactic false
+set_option linter.unreachableTactic false
 
 attribute [-instance] R.toAdd R.toSub R.toMul R.toDiv R.toNeg
 
@@ -61,60 +63,81 @@ macro "c04_normalise" : tactic =>
 /-- the regenerated `elliptical_gaussian` is the canonical Gaussian (theta in degrees) -/
 theorem gauss_eq_canon (x y amp xo yo sx sy th : ℝ) :
     gauss x y amp xo yo sx sy th = G x y amp xo yo sx sy th := by
-  simp only [gauss, r_add, r_sub, r_mul, r_div, r_neg, r_radians, R.real_sin, R.real_cos, R.real_exp,
-    R.real_npow, R.real_ofNat, R.real_ofSci, R.real_pi, Nat.cast_ofNat, Nat.cast_one]
-  unfold G E U W rad
-  c04_normalise
+  first
+  | (simp only [gauss, r_add, r_sub, r_mul, r_div, r_neg, r_radians, R.real_sin, R.real_cos, R.real_exp,
+      R.real_npow, R.real_ofNat, R.real_ofSci, R.real_pi, Nat.cast_ofNat, Nat.cast_one]
+     unfold G E U W rad
+     c04_normalise)
+  | -- the source was UNTRANSLATABLE: `Gen.C04.gauss` is the hand definition
+    (simp only [gauss]; exact Aegean.C04Hand.gaussHand_eq x y amp xo yo sx sy th)
 
 theorem dmds_eq_canon (x y amp xo yo sx sy th : ℝ) (hamp : amp ≠ 0) :
     D_amp x y amp xo yo sx sy th = dmds x y amp xo yo sx sy th := by
-  simp only [dmds, r_add, r_sub, r_mul, r_div, r_neg, r_radians, R.real_sin, R.real_cos, R.real_exp,
-    R.real_npow, R.real_ofNat, R.real_ofSci, R.real_pi, Nat.cast_ofNat, Nat.cast_one]
-  rw [gauss_eq_canon]
-  unfold D_amp G
-  c04_algebra
+  first
+  | (simp only [dmds, r_add, r_sub, r_mul, r_div, r_neg, r_radians, R.real_sin, R.real_cos, R.real_exp,
+     R.real_npow, R.real_ofNat, R.real_ofSci, R.real_pi, Nat.cast_ofNat, Nat.cast_one]
+     rw [gauss_eq_canon]
+     unfold D_amp G
+     c04_algebra)
+  | -- the source was UNTRANSLATABLE: `Gen.C04.dmds` is the hand definition
+    (simp only [dmds]; exact Aegean.C04Hand.dmdsHand_eq_canon x y amp xo yo sx sy th hamp)
 
 theorem dmdxo_eq_canon (x y amp xo yo sx sy th : ℝ) (hsx : sx ≠ 0) (hsy : sy ≠ 0) :
     D_xo x y amp xo yo sx sy th = dmdxo x y amp xo yo sx sy th := by
-  simp only [dmdxo, r_add, r_sub, r_mul, r_div, r_neg, r_radians, R.real_sin, R.real_cos, R.real_exp,
-    R.real_npow, R.real_ofNat, R.real_ofSci, R.real_pi, Nat.cast_ofNat, Nat.cast_one]
-  rw [gauss_eq_canon]
-  unfold D_xo U W rad
-  c04_algebra
+  first
+  | (simp only [dmdxo, r_add, r_sub, r_mul, r_div, r_neg, r_radians, R.real_sin, R.real_cos, R.real_exp,
+     R.real_npow, R.real_ofNat, R.real_ofSci, R.real_pi, Nat.cast_ofNat, Nat.cast_one]
+     rw [gauss_eq_canon]
+     unfold D_xo U W rad
+     c04_algebra)
+  | -- the source was UNTRANSLATABLE: `Gen.C04.dmdxo` is the hand definition
+    (simp only [dmdxo]; exact Aegean.C04Hand.dmdxoHand_eq_canon x y amp xo yo sx sy th hsx hsy)
 
 theorem dmdyo_eq_canon (x y amp xo yo sx sy th : ℝ) (hsx : sx ≠ 0) (hsy : sy ≠ 0) :
     D_yo x y amp xo yo sx sy th = dmdyo x y amp xo yo sx sy th := by
-  simp only [dmdyo, r_add, r_sub, r_mul, r_div, r_neg, r_radians, R.real_sin, R.real_cos, R.real_exp,
-    R.real_npow, R.real_ofNat, R.real_ofSci, R.real_pi, Nat.cast_ofNat, Nat.cast_one]
-  rw [gauss_eq_canon]
-  unfold D_yo U W rad
-  c04_algebra
+  first
+  | (simp only [dmdyo, r_add, r_sub, r_mul, r_div, r_neg, r_radians, R.real_sin, R.real_cos, R.real_exp,
+     R.real_npow, R.real_ofNat, R.real_ofSci, R.real_pi, Nat.cast_ofNat, Nat.cast_one]
+     rw [gauss_eq_canon]
+     unfold D_yo U W rad
+     c04_algebra)
+  | -- the source was UNTRANSLATABLE: `Gen.C04.dmdyo` is the hand definition
+    (simp only [dmdyo]; exact Aegean.C04Hand.dmdyoHand_eq_canon x y amp xo yo sx sy th hsx hsy)
 
 theorem dmdsx_eq_canon (x y amp xo yo sx sy th : ℝ) (hsx : sx ≠ 0) :
     D_sx x y amp xo yo sx sy th = dmdsx x y amp xo yo sx sy th := by
-  simp only [dmdsx, r_add, r_sub, r_mul, r_div, r_neg, r_radians, R.real_sin, R.real_cos, R.real_exp,
-    R.real_npow, R.real_ofNat, R.real_ofSci, R.real_pi, Nat.cast_ofNat, Nat.cast_one]
-  rw [gauss_eq_canon]
-  unfold D_sx U rad
-  c04_algebra
+  first
+  | (simp only [dmdsx, r_add, r_sub, r_mul, r_div, r_neg, r_radians, R.real_sin, R.real_cos, R.real_exp,
+     R.real_npow, R.real_ofNat, R.real_ofSci, R.real_pi, Nat.cast_ofNat, Nat.cast_one]
+     rw [gauss_eq_canon]
+     unfold D_sx U rad
+     c04_algebra)
+  | -- the source was UNTRANSLATABLE: `Gen.C04.dmdsx` is the hand definition
+    (simp only [dmdsx]; exact Aegean.C04Hand.dmdsxHand_eq_canon x y amp xo yo sx sy th hsx)
 
 theorem dmdsy_eq_canon (x y amp xo yo sx sy th : ℝ) (hsy : sy ≠ 0) :
     D_sy x y amp xo yo sx sy th = dmdsy x y amp xo yo sx sy th := by
-  simp only [dmdsy, r_add, r_sub, r_mul, r_div, r_neg, r_radians, R.real_sin, R.real_cos, R.real_exp,
-    R.real_npow, R.real_ofNat, R.real_ofSci, R.real_pi, Nat.cast_ofNat, Nat.cast_one]
-  rw [gauss_eq_canon]
-  unfold D_sy W rad
-  c04_algebra
+  first
+  | (simp only [dmdsy, r_add, r_sub, r_mul, r_div, r_neg, r_radians, R.real_sin, R.real_cos, R.real_exp,
+     R.real_npow, R.real_ofNat, R.real_ofSci, R.real_pi, Nat.cast_ofNat, Nat.cast_one]
+     rw [gauss_eq_canon]
+     unfold D_sy W rad
+     c04_algebra)
+  | -- the source was UNTRANSLATABLE: `Gen.C04.dmdsy` is the hand definition
+    (simp only [dmdsy]; exact Aegean.C04Hand.dmdsyHand_eq_canon x y amp xo yo sx sy th hsy)
 
 /-- the theta entry, per DEGREE: this is the obligation that fails when the factor π/180 is
     missing from `dmdtheta` -/
 theorem dmdtheta_eq_canon (x y amp xo yo sx sy th : ℝ) (hsx : sx ≠ 0) (hsy : sy ≠ 0) :
     D_theta x y amp xo yo sx sy th = dmdtheta x y amp xo yo sx sy th := by
-  simp only [dmdtheta, r_add, r_sub, r_mul, r_div, r_neg, r_radians, R.real_sin, R.real_cos, R.real_exp,
-    R.real_npow, R.real_ofNat, R.real_ofSci, R.real_pi, Nat.cast_ofNat, Nat.cast_one]
-  rw [gauss_eq_canon]
-  unfold D_theta U W rad
-  c04_algebra
+  first
+  | (simp only [dmdtheta, r_add, r_sub, r_mul, r_div, r_neg, r_radians, R.real_sin, R.real_cos, R.real_exp,
+     R.real_npow, R.real_ofNat, R.real_ofSci, R.real_pi, Nat.cast_ofNat, Nat.cast_one]
+     rw [gauss_eq_canon]
+     unfold D_theta U W rad
+     c04_algebra)
+  | -- the source was UNTRANSLATABLE: `Gen.C04.dmdtheta` is the hand definition
+    (simp only [dmdtheta]; exact Aegean.C04Hand.dmdthetaHand_eq_canon x y amp xo yo sx sy th hsx hsy)
 
 /-! ### The six partial derivatives (single component) -/
 
